@@ -137,7 +137,7 @@ class C18(Prop):
                   'entry < 2^24 are part of the limits (the code truncates silently beyond).')
     design_ref = '§5 C18'
     rule = ('lists of 0..6 entries of all six kinds, MIME names well-known (every table row is used, as enum and as bytes) or custom at lengths 1,2,127,128 and out-of-limit '
-            '0,129,200; tags at 0,1,254,255 and out-of-limit 256,300; credentials 0..70 bytes; plus truncations / bit flips / random bytes of valid composites; '
+            '0,129,200; tags at 0,1,254,255 and out-of-limit 256,300; credentials 0..70 bytes and at the byte boundaries of their length fields (user names of 255..65535 bytes, tokens and item contents of 255..70000 bytes); a third of the lists built through rsocket/extensions/helpers.py; plus truncations / bit flips / random bytes of valid composites; '
             'non-trivial = at least two entries or a boundary length; distinct = distinct entry list / blob')
     assumptions = ['entries are built through the repo classes; a str-typed encoding is not generated (bytes and enum values are)']
 
@@ -160,6 +160,18 @@ class C18(Prop):
             if name not in special:
                 items.append({'k': 'raw', 'm': name.hex(), 'c': '01', 'enum': False})
             out.append({'kind': 'enc', 'items': items, 'helpers': rng.random() < 0.35})
+        # length fields at their byte boundaries: the 16-bit user-name length of simple authentication, the 24-bit content length of an item
+        for _ in range(30 if tier == 'quick' else 300):
+            fill = lambda k: (bytes([rng.randint(1, 255)]) * k).hex()
+            x = rng.random()
+            if x < 0.5:
+                it = {'k': 'simple', 'u': fill(rng.choice([255, 256, 32767, 32768, 40000, 65535])), 'p': fill(rng.choice([0, 1, 300]))}
+            elif x < 0.75:
+                it = {'k': 'bearer', 't': fill(rng.choice([255, 256, 65535, 65536, 70000]))}
+            else:
+                it = {'k': 'raw', 'm': b'application/x.big'.hex(), 'c': fill(rng.choice([255, 256, 65535, 65536, 70000])), 'enum': False}
+            items = [it] + ([{'k': 'route', 'tags': [b'after'.hex()]}] if rng.random() < 0.5 else [])
+            out.append({'kind': 'enc', 'items': items, 'helpers': False})
         n = 4000 if tier == 'quick' else 120000
         for _ in range(n):
             bad = rng.random() < 0.12
